@@ -223,7 +223,13 @@ class Ctx:
         hdir = os.path.join(ROOT, "harness")
         gosum = os.path.join(hdir, "go.sum")
         try:
-            shutil.copyfile(os.path.join(REPO, "go.sum"), gosum)
+            want = open(os.path.join(REPO, "go.sum"), "rb").read()
+            have = open(gosum, "rb").read() if os.path.exists(gosum) else None
+            if want != have:            # atomic replace: other checks may be building concurrently
+                tmp = gosum + ".%d.tmp" % os.getpid()
+                with open(tmp, "wb") as f:
+                    f.write(want)
+                os.replace(tmp, gosum)
         except OSError:
             pass
         cmd = ["go", "build", "-tags", tags, "-o", out]
